@@ -40,7 +40,7 @@ def build(rng, tier):
         trailing = [rng.choice([1, 2, 3]) for _ in range(rng.choice([1, 1, 2, 3, 4]))]
         if rng.random() < 0.1:
             trailing[rng.randrange(len(trailing))] = 0
-        elif rng.random() < 0.15:
+        elif rng.random() < 0.22:
             # many lanes along the last axis (blocked / chunked lane loops must not lose a remainder)
             trailing = trailing[:1] + [rng.choice([9, 10, 11, 13, 17, 19])] if rng.random() < 0.5 else [rng.choice([9, 10, 11, 13, 17, 19])]
         L = gen.shape_size(trailing)
@@ -89,6 +89,20 @@ def build(rng, tier):
         near = None
         if kind == "spl":
             bc, lanes = c02.rand_bc(rng, S, L, trailing)
+            if L >= 9 and rng.random() < 0.6:
+                # a wide table, most lanes with the default condition and a few overrides after them (seed C08-r11m1: the default lanes of
+                # an `Individual` array solved in one block when there are 16 or more lanes, with the per-lane pass ending — instead of
+                # continuing — at the first default lane)
+                rbs = ["nak"] * L
+                lanes = [("nak", "nak")] * L
+                for q in sorted(rng.sample(range(1, L), min(L - 1, rng.choice([1, 2, 3, 5])))):
+                    k = rng.choice(["nat", "cla", "mix"])
+                    if k == "mix":
+                        l_, r_ = c02.rand_sb(rng, S), c02.rand_sb(rng, S)
+                        rbs[q], lanes[q] = (l_, r_), (l_, r_)
+                    else:
+                        rbs[q], lanes[q] = k, (k, k)
+                bc = ("ind", [1] + trailing, rbs)
             if L >= 2 and rng.random() < 0.12:
                 bc, lanes = "per", "per"
             if bc == "per":
